@@ -476,7 +476,11 @@ def verify_unit(unit_path, mode="normal", mutant=None, tier="quick", keep=True, 
         if not r2:
             res, failures, tool, rl = res2, f2, t2, r2
     assumptions = scan_assumptions(gen_lines, linemap)
-    leaked = [a for a in assumptions if a["in_take"] is not None]
+    stub_keys = {t.key for t in unit["takes"] if t.stub}
+    leaked = [a for a in assumptions if a["in_take"] is not None and a["in_take"] not in stub_keys]
+    for a in assumptions:
+        if a["in_take"] in stub_keys:
+            a["what"] = "stub (contract verified in unit %s)" % next(t.stub for t in unit["takes"] if t.key == a["in_take"])
     vr = (res["json"] or {}).get("verification-results", {})
     return {"unit": unit, "gen_path": gpath, "gen_lines": gen_lines, "linemap": linemap, "res": res,
             "failures": failures, "tool_errors": tool, "rlimit": rl, "assumptions": assumptions,
@@ -529,7 +533,34 @@ def units_for(prop):
             m = re.search(r"//@\s*serves\s+(.*)", head)
             if m and prop in m.group(1).split():
                 out.append(p)
+    # closure over stubs: a unit that assumes a contract pulls in the unit that verifies it
+    changed = True
+    while changed:
+        changed = False
+        for p in list(out):
+            for dep in re.findall(r"stub=(\w+)", open(p).read()):
+                dp = os.path.join(UNITS, dep + ".vrs")
+                if not os.path.exists(dp):
+                    raise Undecided(f"{os.path.basename(p)}: stub refers to missing unit {dep}")
+                if dp not in out:
+                    out.append(dp)
+                    changed = True
     return out
+
+
+def check_stubs(unit_paths):
+    """every stub must be a non-stub take with the same key, selector and contract file in the named unit"""
+    problems = []
+    parsed = {os.path.splitext(os.path.basename(p))[0]: parse_unit(p) for p in unit_paths}
+    for name, u in parsed.items():
+        for t in u["takes"]:
+            if t.stub:
+                v = parsed.get(t.stub)
+                ok = v and any((x.key == t.key and not x.stub and x.selector == t.selector and x.file == t.file
+                                and x.sections.get("contract") == t.sections.get("contract")) for x in v["takes"])
+                if not ok:
+                    problems.append(f"{name}: stub {t.key} has no verified counterpart with the same contract in unit {t.stub}")
+    return problems
 
 
 def load_known():
@@ -635,6 +666,7 @@ def decide(prop, tier, seed):
 
     # ---- classification
     reasons = [f"{os.path.basename(p)}: {r}" for p, r in undecided]
+    reasons += check_stubs(ups)
     for r in results:
         if r["tool_errors"]:
             reasons.append(f"{r['unit']['name']}: verus front-end error: {r['tool_errors'][0][0]}")
